@@ -9,7 +9,7 @@ CONSTANTS
   IdxMode = "few"
   RetainPats <- cRetainP
   ItemSeqs <- cItems2
-  Hints = {0, 20}
+  Hints = {0, 2, 5, 20}
   RawArgs <- cRaw
   U16Args <- cU16
   FailMode = 1
